@@ -90,9 +90,10 @@ def want_arg(want):
 
 
 def field_order():
-    from chartparse.metadata import _field_parsing_specs
+    """the 24 [Song] fields in the order of the documented format (the harness's own table, not a private table of the package)"""
+    from . import gen
 
-    return list(_field_parsing_specs.keys())
+    return [snake for snake, _, _ in gen.FIELDS]
 
 
 def show_field(v) -> str:
@@ -223,7 +224,10 @@ def run_chart(text: str, want=None) -> str:
     c, e, w = parse(text, want)
     if e is not None:
         return err_name(e)
-    return dump_chart(c, w)
+    try:
+        return dump_chart(c, w)
+    except Exception as ex:  # noqa: BLE001  the returned chart holds something its own public types do not allow (a float tick, a None list …)
+        return "E internal:unobservable-" + type(ex).__name__
 
 
 def run_observed(text: str, want=None) -> str:
